@@ -47,7 +47,8 @@ RULE = ("shim seam, EXHAUSTIVE over the finite universe U: family A = every arra
         "x kind (MR, MR with view insertions, CA, numeric array) x element-id pattern (positions, 1..n, reversed, "
         "sparse, with negatives) x every subset of inserted (anchored) items x derived flags (= anchored | all | complement), collision-free spellings; "
         "family B = the same shapes with deliberate collisions (decimal sub-variable ids as in real MR-insertion "
-        "payloads, sub-variable id = another item's alias, alias = another item's decimal id / position); for each "
+        "payloads, sub-variable id = another item's alias, alias = another item's decimal id / position); family D = CA "
+        "dimensions with one / all elements lacking the optional value.id (the library then has no sub-variable ids); for each "
         "dimension: every spelling of every item + positions + stale + malformed references through `translate`, "
         "and for every (spelling class x item rotation) one transforms dict filling ALL slots (hide, rename, "
         "explicit order, fixed top/bottom, opposing element) + stale/malformed/duplicate mixes + 'key' modes; "
@@ -56,7 +57,7 @@ RULE = ("shim seam, EXHAUSTIVE over the finite universe U: family A = every arra
         "non-trivial when at least one reference resolves to an item other than by alias; distinct = distinct "
         "(kind, n, patterns, anchors) / api design key")
 ASSUMPTIONS = [
-    "array element ids are ints, every item has a string alias and a sub-variable id (as in all fixtures)",
+    "array element ids are ints and every item has a string alias (as in all fixtures); value.id is optional (family D)",
     "references are JSON ints, ASCII strings or null; floats / bools / containers as references are out of scope",
     "the literal string 'key' spells no item",
     "datetime values are not digit strings naming an element id (DtNoCollision; counterexample theorem otherwise)",
@@ -83,7 +84,7 @@ def id_patterns(n):
     }
 
 
-def mk_dim(n, kind, idpat, anchors, sv="pad", al="plain", derived=None):
+def mk_dim(n, kind, idpat, anchors, sv="pad", al="plain", derived=None, noid=None):
     ids = id_patterns(n)[idpat]
     aliases = []
     for i in range(n):
@@ -105,7 +106,9 @@ def mk_dim(n, kind, idpat, anchors, sv="pad", al="plain", derived=None):
         anc = bool(anchors[i]) if anchors else False
         der = anc if derived is None else bool(derived[i])
         items.append({"id": ids[i], "alias": aliases[i], "subvar_id": svid, "anchor": anc, "derived": der})
-    return {"items": items, "mr_ins": kind == "MR_INS"}
+        if noid == "all" or (noid == "first" and i == 0) or (noid == "last" and i == n - 1):
+            items[-1]["no_id"] = True             # the element comes without the optional `value.id`
+    return {"items": items, "mr_ins": kind == "MR_INS", "no_subvar_ids": any(it.get("no_id") for it in items)}
 
 
 def universe():
@@ -143,6 +146,14 @@ def universe():
                                 # sub-variable derived), and derived exactly on the NON-inserted items
                                 out.append(("B", kind, n, idpat, anchors, sv, al, tuple([1] * n)))
                                 out.append(("B", kind, n, idpat, anchors, sv, al, tuple(1 - a for a in anchors)))
+    # family D: elements without the optional `value.id` (one of them / all of them): the library then has no
+    # sub-variable ids at all.  CA only: an MR dimension with an id-less element cannot be built at all
+    # (`Elements._hidden_transforms` indexes `value["id"]`)
+    for n in (1, 2, 3, 4):
+        for idpat in ("one", "sparse", "pos"):
+            for noid in ("first", "last", "all"):
+                for sv in ("pad", "dec"):
+                    out.append(("D", "CA", n, idpat, None, sv, "plain", None, noid))
     return out
 
 
@@ -152,7 +163,7 @@ def spelling(dim, k, cls):
     if cls == "alias":
         return it["alias"]
     if cls == "subvar":
-        return it["subvar_id"]
+        return it["alias"] if it.get("no_id") else it["subvar_id"]
     if cls == "int":
         return it["id"]
     if cls == "str":
@@ -346,10 +357,11 @@ def generate(ctx):
     cases = []
     cases.append({"t": "pyint", "strs": PYINT_PROBE + [m for m in MALFORMED if m is not None] + POOL,
                   "ints": [0, 1, -1, 10, -10, 123456789012345678901234567890, -99]})
-    for fam, kind, n, idpat, anchors, sv, al, derived in universe():
+    for u in universe():
+        fam, kind, n, idpat, anchors, sv, al, derived = u[:8]
         cases.append({"t": "shim", "fam": fam, "kind": kind, "n": n, "idpat": idpat,
                       "anchors": list(anchors) if anchors else None, "sv": sv, "al": al,
-                      "derived": list(derived) if derived else None})
+                      "derived": list(derived) if derived else None, "noid": u[8] if len(u) > 8 else None})
     ctx.count("exhaustive_done")
     ctx.count("universe_dims", len(cases) - 1)
     for _ in range(ctx.n(150, 6000)):
@@ -371,7 +383,8 @@ def generate(ctx):
 def case_dim(case):
     if "dim" in case:
         return case["dim"]
-    return mk_dim(case["n"], case["kind"], case["idpat"], case["anchors"], case["sv"], case["al"], case["derived"])
+    return mk_dim(case["n"], case["kind"], case["idpat"], case["anchors"], case["sv"], case["al"], case["derived"],
+                  case.get("noid"))
 
 
 def case_xfs(case, dim):
